@@ -5,6 +5,7 @@ import (
 	"go/ast"
 	"go/token"
 	"go/types"
+	"sort"
 	"strings"
 
 	"golang.org/x/tools/go/ssa"
@@ -562,15 +563,43 @@ func r074(c *Ctx) {
 func r075(c *Ctx, rule string) {
 	p, r := c.P, c.R
 	n := 0
-	for _, rel := range []string{"internal/check", "internal/expand"} {
+	live, _ := p.KG().Live()
+	var rels []string
+	for _, pk := range p.KetoPackages() {
+		rels = append(rels, core.RelPath(pk.PkgPath))
+	}
+	sort.Strings(rels)
+	for _, rel := range rels {
 		for _, fn := range p.KetoFuncs(rel) {
+			if !live[fn] && !live[core.Outermost(fn)] {
+				continue
+			}
 			core.Instrs(fn, func(b *ssa.BasicBlock, _ int, ins ssa.Instruction) {
 				call, ok := ins.(*ssa.Call)
-				if !ok || !call.Common().IsInvoke() || call.Common().Method.Name() != "GetRelationTuples" {
+				if !ok {
+					return
+				}
+				if obj := core.CalleeObj(call.Common()); obj == nil || obj.Name() != "GetRelationTuples" || obj.Pkg() == nil || !strings.HasPrefix(obj.Pkg().Path(), core.KetoMod) {
+					return
+				}
+				hasTok := false
+				if res := call.Common().Signature().Results(); res != nil {
+					for i := 0; i < res.Len(); i++ {
+						if isStringT2(res.At(i).Type()) {
+							hasTok = true
+						}
+					}
+				}
+				if !hasTok {
+					return // a different function of that name (no page token)
+				}
+				name := core.FuncName(fn)
+				// a caller that hands the token on (API handlers, wrappers) is not a consumer
+				if tokenEscapes(call) {
+					r.Discharge(rule, name, "paginated listing (token handed on)", p.Pos(call.Pos()), "the next-page token is returned / written to the response: the caller continues the listing")
 					return
 				}
 				n++
-				name := core.FuncName(fn)
 				if !core.InLoop(b) {
 					r.Violate(rule, name, "paginated listing", p.Pos(call.Pos()), "GetRelationTuples is called once, outside any loop: only the first page of relationships is seen")
 					return
@@ -720,4 +749,59 @@ func canonExpr(e ast.Expr) string {
 		return canonExpr(x.Fun) + "(" + strings.Join(as, ",") + ")"
 	}
 	return strings.ReplaceAll(types.ExprString(e), " ", "")
+}
+
+// tokenEscapes: the string result (next-page token) of the call flows into a
+// return value, a struct field or another call's argument.
+func tokenEscapes(call *ssa.Call) bool {
+	if call.Referrers() == nil {
+		return false
+	}
+	var tok ssa.Value
+	for _, ref := range *call.Referrers() {
+		if ex, ok := ref.(*ssa.Extract); ok && isStringT2(ex.Type()) {
+			tok = ex
+		}
+	}
+	if tok == nil {
+		return false
+	}
+	seen := map[ssa.Value]bool{}
+	var esc func(v ssa.Value) bool
+	esc = func(v ssa.Value) bool {
+		if seen[v] || v.Referrers() == nil {
+			return false
+		}
+		seen[v] = true
+		for _, ref := range *v.Referrers() {
+			switch x := ref.(type) {
+			case *ssa.Return:
+				return true
+			case *ssa.Store:
+				if x.Val == v {
+					switch a := x.Addr.(type) {
+					case *ssa.FieldAddr:
+						return true
+					case *ssa.Alloc:
+						// named result / local cell: follow its loads
+						for _, ld := range core.CellLoads(a) {
+							if esc(ld) {
+								return true
+							}
+						}
+					}
+				}
+			case *ssa.Phi:
+				if esc(x) {
+					return true
+				}
+			case *ssa.MakeInterface:
+				if esc(x) {
+					return true
+				}
+			}
+		}
+		return false
+	}
+	return esc(tok)
 }
